@@ -166,10 +166,13 @@ def entry_full(style, length, si, salt, seam, stats=None):
     cb = _group_comment(style, (length * 2 + 1) % (length + 7), len(sb), salt + 2, stats, seam)
     ga = M.Group(sa, ca, mid=[M.sentence(length, style, salt + 6), M.sentence(length // 2, style, salt + 7)], layout=layout)
     gb = M.Group(sb, cb, mid=[M.sentence(length, style, salt + 8)], layout=LAYOUTS[(si + length + 1) % 3])
+    # a short single-instruction comment directly behind the first group (no mid-block comment in between): a group that
+    # is not closed where it should be swallows it
+    gn = M.Group((3,), M.sentence(min(length, 12), 'dense', salt + 13))
     tag = {'style': style, 'L': length, 'shape': list(sa), 'shape2': list(sb), 'layout': layout}
     return M.Entry(tag, M.sentence(max(length, 1), style, salt),
                    desc=[M.sentence(length, style, salt + 9), M.sentence((length + 1) // 2, style, salt + 10)],
-                   regs=regs, groups=[ga, gb],
+                   regs=regs, groups=[ga, gn, gb],
                    end=[M.sentence(length, style, salt + 11), M.sentence(length // 3, style, salt + 12)])
 
 
